@@ -359,7 +359,7 @@ def replay_cases(ver, binp, tlc_out, wd, stage, kind="CASE"):
     return summ
 
 
-def validate_traces(ver, binp, family, trace_module, wd, stage="trace", jobs=12, gen_args=None, only_why=None):
+def validate_traces(ver, binp, family, trace_module, wd, stage="trace", jobs=12, gen_args=None, only_why=None, only_name=None):
     """I->S: have the harness record traces, validate every shard with TLC, classify mismatches."""
     t0 = time.time()
     tdir = os.path.join(wd, stage)
@@ -377,6 +377,11 @@ def validate_traces(ver, binp, family, trace_module, wd, stage="trace", jobs=12,
         for w in sorted({m.get("why") for m in other}):
             ver.notes.append(f"{stage}: {sum(1 for m in other if m.get('why') == w)} events fail conjunct '{w}', which belongs to another property's check")
         mism = [m for m in mism if m.get("why") in only_why]
+    if only_name is not None:
+        other = [m for m in mism if m.get("name") not in only_name]
+        if other:
+            ver.notes.append(f"{stage}: {len(other)} events of other operations ({', '.join(sorted({str(m.get('name')) for m in other}))}) fail; they belong to another property's check")
+        mism = [m for m in mism if m.get("name") in only_name]
     for m in mism:
         ver.mismatch("I->S " + stage, m, sigtext=(f"{m.get('fam')}:{m.get('name')}:{m.get('ty', '')}:{m.get('why')}" if "why" in m else None))
     ver.cov["traces_validated_against_impl"] += n
